@@ -357,7 +357,7 @@ def _run(mod, prop, tier, seed, replay, t0):
             broken.append(f"T1 extraction failed: {e!r}")
 
     # 2. build theorems + driver, audit
-    targets = [mod.PROPS] + ([mod.DRIVER] if getattr(mod, "DRIVER", None) else [])
+    targets = [mod.PROPS] + ([mod.DRIVER] if getattr(mod, "DRIVER", None) else []) + list(getattr(mod, "EXTRA_TARGETS", []))
     ok, log = lake_build(targets)
     model_ok = True
     theorems = theorems_of(mod.PROPS)
